@@ -325,6 +325,14 @@ func VerifC16SplitJoin() {
 	nd.Assert(ok && len(parts) == 2 && parts[0] == p1 && parts[1] == p2, "split-pieces")
 	v, err = fEval("s | split: sep | join: sep", b)
 	nd.Assert(err == nil && v.(string) == s, "split-join-roundtrip")
+	// any separator other than a single space is taken literally — whitespace ones too — and
+	// empty pieces in the middle are kept
+	sep2 := []string{"\n", "  ", " \n", ",", "\t"}[nd.Choice(5)]
+	q1, q2, q3 := []string{"a b", "x", ""}[nd.Choice(3)], []string{"", "m n"}[nd.Choice(2)], []string{"c", "y z"}[nd.Choice(2)]
+	s3 := q1 + sep2 + q2 + sep2 + q3
+	v, err = fEval("s | split: sep", map[string]any{"s": s3, "sep": sep2})
+	parts, ok = v.([]string)
+	nd.Assert(err == nil && ok && len(parts) == 3 && parts[0] == q1 && parts[1] == q2 && parts[2] == q3, "split-literal-separator-three-pieces")
 	nd.Reach("C16.splitjoin")
 }
 
